@@ -126,8 +126,12 @@ def parseDiag (s : Sexp) : Option Diag :=
 def diagFault (d : Diag) : String :=
   if d.srclen < 0 then "diag-no-source"
   else if d.stop < d.start then "diag-inverted"
-  else if (d.srclen.toNat) < d.stop then "diag-past-eof"
-  else if !d.bs || !d.be then "diag-mid-char"
+  else if (d.srclen.toNat) < d.stop then
+    -- the signature of `Parser::err_before_ws` / `warn_before_ws` (`pos..pos + 1`) at the end of the source
+    (if d.start == d.srclen.toNat && d.stop == d.start + 1 then "diag-past-eof-by-one" else "diag-out-of-range")
+  else if !d.bs || !d.be then
+    -- the same `pos..pos + 1` where `pos` is a boundary and `pos + 1` is inside a multi-byte character
+    (if d.bs && !d.be && d.stop == d.start + 1 then "diag-mid-char-by-one" else "diag-not-on-char-boundary")
   else ""
 
 def firstFault (ds : List Diag) : String :=
@@ -148,8 +152,38 @@ def stageWord (s : Sexp) : String :=
 
 def panicText (s : Sexp) : String :=
   match s with
-  | .list [.atom "panic", m] => (m.asString?).getD ""
+  | .list (.atom "panic" :: m :: _) => (m.asString?).getD ""
   | _ => ""
+
+/-- `file.rs:line` of a `(panic xmsg file.rs:line)` stage result -/
+def panicLoc (s : Sexp) : String :=
+  match s with
+  | .list [.atom "panic", _, .atom l] => l
+  | _ => "?"
+
+/-- Is the tree exactly the input with extra `-` bytes dropped where `try_split_range` (token_tree.rs) split a
+    `GlyphNameOrRange` into `GlyphName Hyphen GlyphName` (it strips *all* leading hyphens of the tail:
+    `a--b` ↦ `a`,`-`,`b`)?  Returns the number of dropped bytes, `none` if the tree differs in any other way. -/
+def droppedRangeHyphens (inp : Bytes) : List (String × List UInt8) → Nat → String → Nat → Option Nat
+  | [], pos, _, dropped => if pos == inp.size then some dropped else none
+  | (k, bs) :: rest, pos, prev, dropped =>
+    let rec eq (bs : List UInt8) (p : Nat) : Bool :=
+      match bs with
+      | [] => true
+      | b :: bs' => p < inp.size && inp.getD p 0 == b && eq bs' (p + 1)
+    if !eq bs pos then none
+    else
+      let pos := pos + bs.length
+      let nextIsGlyph := match rest with | (k2, _) :: _ => k2 == "GlyphName" | [] => false
+      if k == "Hyphen" && prev == "GlyphName" && nextIsGlyph then
+        -- skip the hyphens the split dropped
+        let rec skip (fuel p n : Nat) : Nat × Nat :=
+          match fuel with
+          | 0 => (p, n)
+          | fuel + 1 => if p < inp.size && inp.getD p 0 == 0x2D then skip fuel (p + 1) (n + 1) else (p, n)
+        let (p', n) := skip (inp.size - pos) pos 0
+        droppedRangeHyphens inp rest p' k (dropped + n)
+      else droppedRangeHyphens inp rest pos k dropped
 
 def handleLex : Handler := fun s =>
   let r : Option Verdict := do
@@ -167,7 +201,16 @@ def handleLex : Handler := fun s =>
     let nt := mToks.length ≥ 5
     if status != "ok" then
       let msg := ((impl.field1? "panicmsg").bind Sexp.asString?).getD ""
-      some { corr := none, oracle := some false, nontrivial := nt, cls := s!"parse-{status}", tags := baseTags,
+      -- the class names the call site: where the panic was raised / the last keyword in front of the point at
+      -- which the parser stops making progress (end of the shortest prefix that still hangs)
+      let site :=
+        if status == "panic" then ((impl.field1? "panicloc").bind Sexp.asAtom?).getD "?"
+        else match (impl.field1? "hangprefix").bind Sexp.asNat? with
+          | some n =>
+            let kws := (toksOf (lexAllFixed inp)).filter (fun t => t.start < n && t.kind.endsWith "Kw")
+            (match kws.getLast? with | some t => t.kind | none => "none")
+          | none => "?"
+      some { corr := none, oracle := some false, nontrivial := nt, cls := s!"parse-{status}@{site}", tags := baseTags,
              detail := msg }
     else
     let toks ← parseToks (← (← impl.field1? "toks").asList?)
@@ -190,15 +233,22 @@ def handleLex : Handler := fun s =>
     -- correspondence
     let cmp := compareToks (mToks.length + iToks.length + 2) mToks iToks modelTotal {}
     let totalOk := if nulPos.isSome then modelTotal ≤ implTotal else modelTotal == implTotal
-    let corr := cmp.ok && totalOk
-    -- On inputs with a NUL byte only the text in front of the first NUL is compared above (behind it the
-    -- unchanged parser either stops or eats the NUL as a 1-byte `Eof` token and goes on).  Advisory: does the whole
-    -- tree agree with the lexer *with* the proposed fix (fixes/C13-nul.patch)?  True once the patch has landed.
-    let agreesWithFixed :=
-      if nulPos.isNone then false else
+    let unchangedOk := cmp.ok && totalOk
+    -- The two lexers differ only on inputs with a NUL byte.  The correspondence accepts either: the lexer of
+    -- the tree as it was (`lexAll`: only the text in front of the first NUL is compared — behind it the old
+    -- parser either stops or eats the NUL as a 1-byte `Eof` token and goes on), or the lexer with the fix
+    -- fixes/C13-nul.patch (`lexAllFixed`: the whole input is compared).  The tag says which one matched.
+    let fixedOk :=
+      if nulPos.isNone then unchangedOk else
         let fToks := toksOf (lexAllFixed inp)
         let fTotal := match fToks.getLast? with | some t => t.stop | none => 0
         (compareToks (fToks.length + iToks.length + 2) fToks iToks fTotal {}).ok && fTotal == implTotal
+    let corr := unchangedOk || fixedOk
+    let eofTokenNonEmpty := toks.any (fun t => t.1 == "Eof" && !t.2.isEmpty)    -- only the old lexer yields these
+    let lexerTag :=
+      if nulPos.isNone then []
+      else if fixedOk && !eofTokenNonEmpty then ["lexer:fixed"]
+      else if unchangedOk then ["lexer:unchanged"] else []
     -- oracle, on the implementation's own output
     let pre := matchPrefix inp toks 0
     let lossless := pre == some inp.size && textlen == inp.size
@@ -212,26 +262,31 @@ def handleLex : Handler := fun s =>
       if lossless then ""
       else match pre, nulPos with
         | some n, some _ => if n < inp.size && inp.getD n 1 == 0 && textlen == n then "nul-truncation" else "lossy-tree"
-        | _, _ => "lossy-tree"
+        | _, _ =>
+          match droppedRangeHyphens inp toks 0 "" 0 with
+          | some n => if 0 < n && textlen + n == inp.size then "lossy-tree-range-double-hyphen" else "lossy-tree"
+          | none => "lossy-tree"
     let cls :=
       if lossCls != "" then lossCls
       else if dFault != "" then dFault
-      else if isPanic fmt || vfmtPanic then "diag-format-panic"
-      else if isPanic validate then "validate-panic"
+      else if isPanic fmt then "diag-format-panic@" ++ panicLoc fmt
+      else if vfmtPanic then "diag-format-panic@" ++ (match impl.field1? "vfmt" with | some v => panicLoc v | none => "?")
+      else if isPanic validate then "validate-panic@" ++ panicLoc validate
       else if vFault != "" then "v" ++ vFault
       else ""
     let oracle := cls == ""
     let cls := if !oracle then cls else if !corr then
       (if !cmp.ok then "boundaries" else "total-length") else ""
     let tags := baseTags ++ cmp.tags.reverse ++ [s!"validate:{stageWord validate}", s!"compile:{stageWord compile}"] ++
-      (if diags.isEmpty then [] else ["parse-diags"]) ++ (if agreesWithFixed then ["nul:matches-fixed-lexer"] else []) ++ (if isPanic compile then ["compile-panic"] else []) ++
-      (if toks.any (fun t => t.1 == "Eof" && !t.2.isEmpty) then ["eof-token-nonempty"] else [])
+      (if diags.isEmpty then [] else ["parse-diags"]) ++ lexerTag ++
+      (if isPanic compile then [s!"compile-panic@{panicLoc compile}"] else []) ++
+      (if eofTokenNonEmpty then ["eof-token-nonempty"] else [])
     let detail :=
       if !oracle then
         (if isPanic validate then panicText validate else if isPanic fmt then panicText fmt else
           s!"srclen={inp.size} concat={repr pre} textlen={textlen}")
       else if !corr then (if !cmp.ok then cmp.why else s!"modelTotal={modelTotal} implTotal={implTotal}")
-      else if isPanic compile then "compile-panic: " ++ panicText compile
+      else if isPanic compile then s!"compile-panic@{panicLoc compile}: " ++ panicText compile
       else ""
     some { corr := some corr, oracle := some oracle, nontrivial := nt, cls := cls, tags := tags, detail := detail }
   r.getD (badInput "c13lex: cannot parse case")
@@ -257,7 +312,8 @@ def handleInc : Handler := fun s =>
     let missing := (edgesRaw.zipIdx.map fun (es, u) => (u, (es.filter (fun t => n ≤ t)).length))
     let tags := [s!"shape:{shape}", s!"files:{if n ≤ 3 then "1-3" else if n ≤ 10 then "4-10" else if n ≤ 49 then "11-49" else "50+"}"]
     if status != "ok" then
-      some { corr := none, oracle := some false, nontrivial := true, cls := s!"include-{status}", tags := tags,
+      let site := if status == "panic" then "@" ++ ((impl.field1? "panicloc").bind Sexp.asAtom?).getD "?" else ""
+      some { corr := none, oracle := some false, nontrivial := true, cls := s!"include-{status}{site}", tags := tags,
              detail := ((impl.field1? "panicmsg").bind Sexp.asString?).getD "" }
     else
     let result ← (← impl.field1? "result").asAtom?
